@@ -43,6 +43,9 @@ def spellings(steps):
     ok_path = all(o != 'P' or not isinstance(a, (glom.core.TType, Path)) for o, a in zip(ops, args))
     if ok_path:
         out.append(('Path', lambda: Path(*parts())))
+        if len(steps) >= 2:
+            # a Path given as the first part of another Path: the same steps, spliced in with their kinds
+            out.append(('Path-nested', lambda: Path(Path(*parts()[:-1]), parts()[-1])))
     # consecutive T steps merged into one T chain
     if any(o != 'P' for o in ops):
         def merged():
@@ -137,6 +140,8 @@ def replay_case(st, out):
     for classes, logging, tk in passes:
         codec.SENT['TK'] = tk
         for name, mk in spellings(st['steps']):
+            if name == 'Path-nested' and (logging or isinstance(tk, PointKey)):
+                continue        # (the nested spelling is replayed on the plain classes only)
             if isinstance(tk, PointKey):
                 name += '/namedtuple-key'
             heap = codec.Heap(st['heap'], classes)
